@@ -355,7 +355,7 @@ func (c *strict) Summary(w *sim.World) (string, []string) {
 	}
 	if len(c.nt) > 0 {
 		cls = append(cls, "nontrivial")
-		return strings.Join(c.nt, ";"), cls
+		return strings.Join(c.nt, "\x1f"), cls
 	}
 	return "", cls
 }
